@@ -183,7 +183,8 @@ class LazyLogging(SimpleCodemod, NameAndAncestorResolutionMixin):
                 self.process_concat(node.left, format_strings, format_args, prefixes)
                 self.process_concat(node.right, format_strings, format_args, prefixes)
             case cst.SimpleString():
-                format_strings.append(node.raw_value)
+                # the literal becomes part of a format string: a bare % must stay literal
+                format_strings.append(node.raw_value.replace("%", "%%"))
                 if node.prefix:
                     prefixes.append(node.prefix + '"')
             case _:
